@@ -79,6 +79,15 @@ pub enum Guarded<T> {
     Panicked(String),
 }
 
+/// run `f` with the "harness panic" diagnostics switched off: for calls through the C ABI wrappers, which
+/// catch the library's panics themselves (nothing unwinds to us, nothing of ours is panicking)
+pub fn quiet<T>(f: impl FnOnce() -> T) -> T {
+    IN_GUARD.with(|g| g.set(g.get() + 1));
+    let r = f();
+    IN_GUARD.with(|g| g.set(g.get() - 1));
+    r
+}
+
 /// run `f` (a call into the library under test) and observe whether it unwinds
 pub fn guard<T>(f: impl FnOnce() -> T) -> Guarded<T> {
     LAST_PANIC.with(|l| *l.borrow_mut() = None);
